@@ -228,6 +228,17 @@ func (d *dumper) node(n ast.Node, depth int) {
 		d.comments(x, depth+1)
 		return
 	case *ast.BasicLit:
+		if (x.Kind == token.INT || x.Kind == token.FLOAT) && strings.HasPrefix(x.Value, "-") {
+			// a negative number built as ONE literal (programmatic ASTs) is `-` applied to the number
+			d.line(depth, "UnaryExpr")
+			d.line(depth+1, ".Op -")
+			d.line(depth+1, ".X")
+			cp := *x
+			cp.Value = x.Value[1:]
+			d.line(depth+2, "BasicLit %s", litValue(&cp))
+			d.comments(x, depth+3)
+			return
+		}
 		d.line(depth, "BasicLit %s", litValue(x))
 		d.comments(x, depth+1)
 		return
